@@ -62,7 +62,8 @@ _ALLOWED_CONTENT_HEADERS = frozenset(
     ]
 )
 
-_FILENAME_STAR_RFC5987 = re.compile(r"([\w-]+)'[\w]*'(.+)")
+# NOTE: The (optional) language tag may contain hyphens (e.g., en-US).
+_FILENAME_STAR_RFC5987 = re.compile(r"([\w-]+)'[\w-]*'(.+)")
 
 _CRLF = b'\r\n'
 _CRLF_CRLF = _CRLF + _CRLF
